@@ -4,7 +4,7 @@
    specification = C11.NodeSpec (Node 20's documented algorithm), scope
    predicates = C11.Scope.  Outcomes are compared in the property's classes:
    resolved to the same path / same package re-resolution / refused. *)
-From V Require Import Common.Base C11.Str C11.EsbuildResolve C11.NodeSpec C11.Scope C11.ResolveProofs.
+From V Require Import Common.Base C11.Str C11.EsbuildResolve C11.NodeSpec C11.SortLemmas C11.Scope C11.ResolveProofs.
 Local Open Scope string_scope.
 
 (* esmParsePackageName = PACKAGE_RESOLVE steps 2, 4-7, for every specifier *)
@@ -45,6 +45,30 @@ Theorem imports_resolve_eq_partial : forall j spec conds,
   = coarse (node_imports_resolve spec j conds).
 Proof. exact imports_resolve_eq_partial_all. Qed.
 Print Assumptions imports_resolve_eq_partial.
+
+(* The domain of the two theorems above is EXACTLY: the documented exclusions
+   (keys / specifiers ending in "/"), the URL fragment modelled by the
+   specification (URL-plain characters, no empty segment), and the absence of
+   every recorded refuted shape D1..D10 (C11.Scope [shape_*]); nothing else is
+   excluded (keys with several "*", any nesting, any condition set are in). *)
+Theorem in_scope_exports_split : forall j mk,
+  in_scope_exports j mk = documented_ok j mk && fragment_ok j mk && no_refuted_shape false j mk.
+Proof. exact in_scope_exports_split_all. Qed.
+Print Assumptions in_scope_exports_split.
+
+Theorem in_scope_imports_split : forall j mk,
+  in_scope_imports j mk = documented_ok j mk && fragment_ok j mk && no_refuted_shape true j mk.
+Proof. exact in_scope_imports_split_all. Qed.
+Print Assumptions in_scope_imports_split.
+
+(* the fragment condition "no empty segment" is what makes Go's path.Join a
+   concatenation: for every target "./rest" of ordinary segments *)
+Theorem path_join_is_concatenation : forall rest,
+  ordinary_path rest = true ->
+  path_join2 [ch_slash] (ch_dot :: ch_slash :: rest) = ch_slash :: rest
+  /\ path_clean (ch_slash :: rest) = ch_slash :: rest.
+Proof. exact (fun rest H => conj (path_join_root_dot rest H) (path_clean_rooted rest H)). Qed.
+Print Assumptions path_join_is_concatenation.
 
 (* With only the documented exclusions (keys / specifiers ending in "/") the
    equality is FALSE of the faithful model: *)
